@@ -13,6 +13,7 @@ CONFIGS = {
     "L_umol": dict(volume_storage_unit="L", moles_storage_unit="umol"),
     "mL_umol_p8": dict(volume_storage_unit="mL", internal_precision="8"),
     "uL_mmol_p12": dict(moles_storage_unit="mmol", internal_precision="12"),
+    "dens24": dict(default_solid_density="2", default_enzyme_density="4"),
     "dens2": dict(default_solid_density="2", default_enzyme_density="2"),
     "L_mol_dens2": dict(volume_storage_unit="L", moles_storage_unit="mol", default_solid_density="2", default_enzyme_density="4"),
 }
